@@ -200,6 +200,69 @@ def qualified_refs(fails, stats):
         impl.drop_module("verif_c11_qa"); impl.drop_module("verif_c11_qb")
 
 
+CODEC_BASES = [("bytes", "bytes", "b'\\x00abc'"), ("bytearray", "bytearray", "bytearray(b'ab')"), ("str", "str", "'s'"),
+               ("int", "int", "5"), ("dec", "decimal.Decimal", "decimal.Decimal('1.5')"),
+               ("date", "datetime.date", "datetime.date(2020, 2, 3)"), ("cls", "P", "P(1, datetime.date(2020, 2, 3))"),
+               ("lst", "list[int]", "[1, 2]"), ("opt", "typing.Optional[bytes]", "b'xy'")]
+
+
+def codec_chains(fails, stats):
+    """codecs (and the function-level encode / decode) of every alternating NewType / alias chain of length <= 3
+    behave like those of the base type: same payload, same decoded value, same exception kind"""
+    import itertools as it
+    import typelib
+    lines = ["import typing, dataclasses, datetime, decimal", "from typelib.py.compat import TypeAliasType",
+             "@dataclasses.dataclass", "class P:", "    x: int", "    y: datetime.date"]
+    chains = []
+    for bname, bsrc, vsrc in CODEC_BASES:
+        lines.append(f"B_{bname} = {bsrc}")
+        lines.append(f"V_{bname} = {vsrc}")
+        for n in (1, 2, 3):
+            for kinds in it.product(("NT", "AL"), repeat=n):
+                prev = f"B_{bname}"
+                for i, k in enumerate(kinds):          # innermost first
+                    name = f"W_{bname}_{''.join(kinds)}_{i}"
+                    lines.append(f"{name} = typing.NewType('{name}', {prev})" if k == "NT"
+                                 else f"{name} = TypeAliasType('{name}', {prev})")
+                    prev = name
+                chains.append((bname, kinds, prev))
+    mod = impl.new_module("verif_c11_codec", "\n".join(lines) + "\n")
+
+    def outcome(f):
+        try:
+            r = f()
+            return ("ok", type(r).__name__, repr(r))
+        except Exception as e:
+            return ("raise", impl.exc_kind(e))
+    try:
+        for bname, kinds, wname in chains:
+            T, W, v = getattr(mod, f"B_{bname}"), getattr(mod, wname), getattr(mod, f"V_{bname}")
+            impl.clear_caches()
+            ref_payload = outcome(lambda: typelib.codec(T).encode(v))
+            payload = typelib.codec(T).encode(v) if ref_payload[0] == "ok" else b"null"
+            clauses = [
+                ("codec(W).encode(v)", ref_payload, lambda: typelib.codec(W).encode(v)),
+                ("typelib.encode(v, t=W)", outcome(lambda: typelib.encode(v, t=T)), lambda: typelib.encode(v, t=W)),
+                ("codec(W).decode(payload)", outcome(lambda: typelib.codec(T).decode(payload)),
+                 lambda: typelib.codec(W).decode(payload)),
+                ("typelib.decode(W, payload)", outcome(lambda: typelib.decode(T, payload)),
+                 lambda: typelib.decode(W, payload)),
+            ]
+            for what, exp, f in clauses:
+                stats["evaluations"] += 1
+                stats["nontrivial"] += exp[0] == "ok"
+                impl.clear_caches()
+                got = outcome(f)
+                if got != exp:
+                    fails.append({"symptom": "codec of the wrapped annotation behaves differently", "tag": "codec-chain",
+                                  "plain_type": repr(T), "wrapped_type": f"{'('.join(kinds)}({bname}" + ")" * len(kinds),
+                                  "call": what, "input": repr(v), "got": repr(got)[:300], "expected": repr(exp)[:300],
+                                  "module_source": "\n".join(lines),
+                                  "key": json.dumps(["C11-codec", bname, list(kinds), what])})
+    finally:
+        impl.drop_module("verif_c11_codec")
+
+
 def search(run: lib.Run, broken):
     groups, pairs = getattr(run, "_c11", (None, None))
     if groups is None:
@@ -222,6 +285,7 @@ def search(run: lib.Run, broken):
                                   input=repr(x)[:300], got=repr(b[1])[:300], expected=repr(a[1])[:300],
                                   key=json.dumps(["C11-u", p["tag"], base["wrapped_type"][:120], repr(x)[:80]])))
     qualified_refs(fails, stats)
+    codec_chains(fails, stats)
     run.search_stats["oracle"] = {
         "evaluations": stats["evaluations"], "distinct_nontrivial": stats["nontrivial"], "pairs": len(pairs),
         "failures": len(fails),
